@@ -39,6 +39,7 @@ fn main() {
     let mut seed: u64 = std::env::var("VERIF_SEED").ok().and_then(|s| s.trim().parse::<i128>().ok()).map(|v| v as u64).unwrap_or(0);
     let mut part = None;
     let mut out = None;
+    let mut input: Option<String> = None;
     let mut trace: Option<String> = None;
     let mut only: Option<usize> = None;
     let mut pos = vec![];
@@ -60,6 +61,10 @@ fn main() {
             "--part" => {
                 i += 1;
                 part = args.get(i).cloned();
+            }
+            "--in" => {
+                i += 1;
+                input = args.get(i).cloned();
             }
             "--trace" => {
                 i += 1;
@@ -108,7 +113,7 @@ fn main() {
         "dump" => {
             let corpus = pos.first().cloned().unwrap_or_else(|| usage());
             let out = out.unwrap_or_else(|| usage());
-            std::process::exit(checks::dump(&corpus, seed, tier, &out))
+            std::process::exit(checks::dump(&corpus, seed, tier, input.as_deref(), &out))
         }
         _ => usage(),
     }
